@@ -181,9 +181,27 @@ def r3_periodic(repo: Repo, rep):
                   + (" (static non-periodic sampler)" if static_path else ""), "; ".join(polluted)[:200], "; ".join(polluted)[:160])
     fw = pc.methods.get("forward")
     rep.saw(fw)
-    src = ast.unparse(fw.node)
-    ok = "self.left_data_functions[fun]({**x_left_coordinates" in src.replace("\n", "") and "self.right_data_functions[fun]({**x_right_coordinates" in src.replace("\n", "")
-    rep.check(R, ok, fw.site(), fw.fq, "forward evaluates left data on left coordinates and right data on right coordinates", "pairing not found", "forward pairing")
+    # the argument each side's data function is evaluated on must be derived from that side's sampler draw and not the other's
+    for p in paths(fw.node, expand_self=False):
+        if p.ret is RAISE:
+            continue
+        seen = {}
+        for e in p.events:
+            if e.value is None:
+                continue
+            for c in ast.walk(e.value):
+                if isinstance(c, ast.Call) and isinstance(c.func, ast.Subscript) and dump(c.func.value) in ("self.left_data_functions", "self.right_data_functions") and c.args:
+                    seen.setdefault(dump(c.func.value).split(".")[1].split("_")[0], set()).add(dump(c.args[0]))
+        ok = set(seen) == {"left", "right"}
+        detail = "left/right data-function evaluations not found"
+        if ok:
+            for side, other in (("left", "right"), ("right", "left")):
+                for a in seen[side]:
+                    if f"self.{side}_sampler.sample_points" not in a or f"self.{other}_sampler" in a:
+                        ok = False
+                        detail = f"{side} data evaluated on {a[:120]}"
+        rep.check(R, ok, fw.site(), fw.fq, "forward evaluates left data on left coordinates and right data on right coordinates", detail, "forward pairing")
+        break
 
 
 FORWARD_ALLOWED = {"last_unreduced_loss", "iterator"}
@@ -291,6 +309,7 @@ MUTANTS = [
     dict(id="C14-M5", file=_C, old="        if not sampler.is_static:\n            raise ValueError(\n                \"Adaptive point weights should only be used with static\", \"samplers.\"\n            )", new="        sampler = sampler.make_static()", rule="R-C14-4", what="constructor re-staticises the user's sampler"),
     dict(id="C14-M6", file=_U, old="        inp = {key: args[key] for key in self.args if key in args}\n        inp.update({key: self.defaults[key] for key in self.args if key not in args})\n        if not vectorize:",
          new="        for key in self.args:\n            if key not in args:\n                args.setdefault(key, self.defaults[key])\n        inp = {key: args[key] for key in self.args}\n        if not vectorize:", rule=None, rules=["R-C13-5", "R-C14-2"], what="defaults written into the caller's mapping"),
+    dict(id="C14-M8", file=_C, old="                {**x_left_coordinates, **x_b_coordinates}\n", new="                {**x_right_coordinates, **x_b_coordinates}\n", rule="R-C14-3", what="left data evaluated on the right points"),
     dict(id="C14-M7", file=_S, old="        self.optimizer_args = optimizer_args", new="        self.optimizer_args = optimizer_args\n        optimizer_args.setdefault(\"lr\", lr)", rule="R-C14-2", what="mutable default written (thorough tier scope)"),
 ]
 TWINS = [
